@@ -100,6 +100,14 @@ def run_case(case) -> Outcome:
     net_c.add_node(cons)
     pmaps = setup_maps(prod, maps, consumer=False)
     cmaps = setup_maps(cons, maps, consumer=True, from_od=case.get("config") == "from_od")
+    # a third, passive node with the same configuration on its own network: it hears everything the
+    # other two put on the bus (data frames and remote requests) through the library's own listener
+    net_m, port_m = hub.attach("monitor")
+    mon = canopen.RemoteNode(NODE, build_od(spec))
+    net_m.add_node(mon)
+    mmaps = setup_maps(mon, maps, consumer=True)
+    for prt in (port_p, port_c, port_m):
+        prt.via_listener = True
     D = []
 
     def bad(kind, detail):
@@ -119,6 +127,8 @@ def run_case(case) -> Outcome:
     c_subscribed = [({mp["cob"]} if mp.get("enabled", True) else set()) for mp in maps]
     c_data = [None] * len(maps)
     c_ts = [None] * len(maps)
+    m_data = [None] * len(maps)
+    m_ts = [None] * len(maps)
     cb_log = []
     cb_expected = []
     callbacks = [[] for _ in maps]
@@ -130,6 +140,10 @@ def run_case(case) -> Outcome:
         return cb
 
     def expect_receive(can_id, data, ts):
+        for m in range(len(maps)):
+            if can_id == maps[m]["cob"] and maps[m].get("enabled", True):
+                m_data[m] = bytes(data)
+                m_ts[m] = ts
         for m in range(len(maps)):
             if can_id == c_cob[m] and can_id in c_subscribed[m]:
                 c_data[m] = bytes(data)
@@ -154,6 +168,13 @@ def run_case(case) -> Outcome:
                 return
             if cmaps[m].timestamp != c_ts[m]:
                 bad("timestamp", f"{tag}: consumer map {m} timestamp {cmaps[m].timestamp} model {c_ts[m]}")
+                return
+        for m in range(len(maps)):
+            got = bytes(mmaps[m].data) if m_data[m] is not None else None
+            if (m_data[m] is not None and got != m_data[m]) or mmaps[m].timestamp != m_ts[m]:
+                bad("monitor-node", f"{tag}: passive node, map {m} (cob {maps[m]['cob']:#x}) holds "
+                                    f"{bytes(mmaps[m].data).hex()} @ {mmaps[m].timestamp}, model "
+                                    f"{m_data[m].hex() if m_data[m] is not None else None} @ {m_ts[m]}")
                 return
         # per map: every callback once per reception, in registration order (the order in which
         # different maps that share a COB-ID are served is not part of the property)
@@ -233,6 +254,7 @@ def run_case(case) -> Outcome:
                     bad("rtr/sent-although-not-allowed", f"{tag}: enabled={cmaps[m].enabled} "
                         f"rtr_allowed={maps[m].get('rtr', True)} but sent {new}")
                 feats.add("rtr")
+                compare(tag)
             elif kind == "wait":
                 feats.add("wait")
                 if op.get("deliver"):
